@@ -93,7 +93,7 @@ def _devreply(d: dict, dev_state: dict) -> bytes:
         return bytes(b)
     if t == "listing":
         b = _fill(rng, 45)
-        for k, rec in enumerate(dev_state["slots"]):
+        for k, rec in sorted(dev_state["slots"]):
             b += bytes([k, 1]) + rec[0:1] + b"\x01" + rec[1:5] + rec[5:9] + bytes(rng.randbytes(4))
         b += rng.randbytes(4)
         return bytes(b)
@@ -113,7 +113,11 @@ def _store_if_create(frame: bytes, dev_state: dict):
     """The fake device keeps the 9 bytes (mask, start, end) of an acknowledged create-schedule frame.
     Recognised by its fixed marker only; TLC re-derives the same from its own decoder (ListingClauses)."""
     if len(frame) == 99 and frame[79:84] == b"\x00\x03\x0c\x00\xff":
-        dev_state["slots"].append(frame[85:86] + frame[87:95])
+        used = {k for k, _ in dev_state["slots"]}
+        free = next(i for i in range(len(used) + 1) if i not in used)          # the lowest free slot
+        dev_state["slots"].append((free, frame[85:86] + frame[87:95]))
+    elif len(frame) == 88 and frame[79:83] == b"\x00\x08\x01\x00":           # delete: the named slot is emptied
+        dev_state["slots"] = [(k, r) for k, r in dev_state["slots"] if k != frame[83]]
 
 
 # ----------------------------------------------------------------------------------------
